@@ -15,7 +15,6 @@ from happysimulator.core.entity import Entity
 from happysimulator.core.event import (
     Event,
     _active_debugger_context,
-    reset_event_counter,
 )
 from happysimulator.core.event_heap import EventHeap
 from happysimulator.core.protocols import Simulatable
@@ -74,7 +73,14 @@ class Simulation:
         fault_schedule: "FaultSchedule | None" = None,
         duration: float | None = None,
     ):
-        reset_event_counter()
+        # The global creation counter is deliberately NOT reset here. Events a
+        # model builds before constructing its Simulation (and schedules
+        # afterwards) carry indices from that counter; restarting it at zero
+        # made the tie-break between those events and the ones created next
+        # (source ticks, events built after the constructor) depend on how far
+        # the counter had advanced earlier in the process, i.e. on which other
+        # simulations had been built or run before. A counter that only ever
+        # grows orders events by creation in every process history.
 
         if duration is not None and end_time is not None:
             raise ValueError("Cannot specify both 'duration' and 'end_time'")
